@@ -186,7 +186,9 @@ fn ilv_coverage(st: &crate::ilv::IlvStats, opts: &crate::ilv::IlvOpts) -> Map<St
     m.insert("scenarios_capped".into(), json!(st.capped));
     m.insert("exhaustive".into(), json!(st.capped == 0));
     m.insert("distinct_final_outcomes_total".into(), json!(st.outcomes));
-    m.insert("scenarios_with_single_outcome".into(), json!(st.vacuous));
+    m.insert("scenarios_with_single_outcome".into(), json!(st.single_outcome));
+    m.insert("scenarios_without_conflicting_access".into(), json!(st.vacuous));
+    m.insert("executions_with_conflicting_access".into(), json!(st.conflict_execs));
     m.insert("max_uninterrupted_steps_of_a_call".into(), json!(st.max_solo_steps));
     m.insert("executions_ending_in_panic".into(), json!(st.panicked_execs));
     m.insert("determinism_checks".into(), json!(st.determinism_checks));
@@ -296,13 +298,18 @@ fn run_seq_ilv(
 }
 
 fn ilv_opts(thorough: bool) -> crate::ilv::IlvOpts {
+    let bound = std::env::var("VERIF_ILV_BOUND")
+        .ok()
+        .and_then(|s| if s == "inf" { Some(usize::MAX) } else { s.parse().ok() })
+        .unwrap_or(if thorough { 4 } else { 3 });
     crate::ilv::IlvOpts {
-        bound: if thorough { 3 } else { 2 },
+        bound,
         crash: false,
         c10: false,
-        cache: thorough,
+        cache: true,
+        bound_two_calls: if thorough { Some(usize::MAX) } else { None },
         max_secs: if thorough { 300.0 } else { 20.0 },
-        max_execs: if thorough { 5_000_000 } else { 200_000 },
+        max_execs: if thorough { 50_000_000 } else { 2_000_000 },
     }
 }
 
